@@ -51,6 +51,9 @@ def model_check(wd, tier="quick", prop=""):
     ap = vlib.run_tlc(os.path.join(wd, "mc"), "AsyncCommit", cfg="MC_AsyncCommit_pinned.cfg", workers=8, timeout=900)
     if ap.ok or ap.invariant != "OneOutcome":
         raise vlib.Infra("AsyncCommit.tla with cleanup after an undetermined prewrite no longer violates OneOutcome:\n" + ap.out[-1500:])
+    ac = vlib.run_tlc(os.path.join(wd, "mc"), "AsyncCommit", cfg="MC_AsyncCommit_check.cfg", workers=8, timeout=900)
+    if ac.ok or ac.invariant != "FailHolds":
+        raise vlib.Infra("AsyncCommit.tla with a non-locking existence check no longer violates FailHolds:\n" + ac.out[-1500:])
     r.async_commit = a.summary()
     if prop in ("C02", "C03"):
         # one-phase commit: the I-spec holds; keeping async commit after a fall-back, or calling a lost answer a definite failure, must fail
@@ -132,7 +135,7 @@ def run_txn_check(prop, families, tier, seed, replay, monitors=("TxnHistory",), 
                rule="scenarios executed on the real client over mocktikv through the wire gate; distinct = distinct scenario descriptors "
                     "(shape / layout / mode / fault position / companion or seed-generated workload)",
                per_family=stats, samples=samples, model_check=mc.summary() if mc else None, async_commit_model_check=getattr(mc, "async_commit", None) if mc else None, one_pc_model_check=getattr(mc, "one_pc", None) if mc else None,
-               checker_cmd="tlc MC_Percolator ; tlc AsyncCommit (holds; pinned committer must fail OneOutcome) ; go build harness/txn ; txnh -mode ... ; tlc " + " ; tlc ".join(monitors))
+               checker_cmd="tlc MC_Percolator ; tlc AsyncCommit (holds; pinned committer must fail OneOutcome, a non-locking check must fail FailHolds) ; go build harness/txn ; txnh -mode ... ; tlc " + " ; tlc ".join(monitors))
     cov.update(extra_cov or {})
     vlib.write_evidence(prop, tier, seed, "model_checking", cov, time.time() - t0, nviol + len(v.known_hits),
                         assumptions=(assumptions or []) + ["stores: the in-repo mock TiKV (two-phase commit, optimistic and pessimistic, virtual time) and, for the families whose name ends in 'uni', tidb's unistore (async commit and 1PC as well; wall-clock TSO, so locks only expire for GC-style forced resolution); unistore itself is trusted where it is faithful to TiKV - three places where it is not are excluded (DESIGN 10.4)",
